@@ -89,6 +89,11 @@ def run_tlc(module, cfg, workers=4, timeout=1800, env_extra=None, java_opts="", 
         cmd += extra_args
     cmd += [module]
     env = dict(os.environ)
+    # a bounded heap for every TLC run (the JVM default is a quarter of the machine's memory per process, and the agent
+    # checks run eight models side by side): the models here need far less, and a run that does need more fails as a
+    # tool error instead of taking the machine down
+    if "-Xmx" not in java_opts:
+        java_opts = (java_opts + " -Xmx4g").strip()
     if java_opts:
         env["JAVA_TOOL_OPTIONS"] = java_opts
     if env_extra:
